@@ -7,6 +7,7 @@
     @ case                              fresh empty stack                       → ok
     leaf <id> <shape>                   push Tensor::from(shape, ids)            → ok shape=<shape> | reject
     matrix <id> <rows> <cols> <r>,<c>   push TensorRefMatrix over a Matrix       → ok shape=<shape> | reject
+    matrixof <r>,<c>                    TensorRefMatrix::from/with_names(MatrixRefTensor::from(top)), top 2-dimensional
     range  <name:start:len,…> kind=lenient|strict   TensorRange::from / from_all / *_strict
     mask   <name:start:len,…> kind=lenient|strict   TensorMask::…
     index  <name:i,…>                   TensorIndex::from
@@ -165,6 +166,10 @@ def step (s : State) (toks : List String) : State × String :=
       | some v => ({ s with stack := v :: s.stack }, okShape v)
       | none => (s, "reject")
     | _, _, _, _ => (s, "bad-op")
+  | "matrixof" :: namesS :: _ =>
+    match parseNames namesS with
+    | [r, c] => applyTop s fun v => if v.shape.length ≠ 2 then none else some (v.mkMatrixOf r c)
+    | _ => (s, "bad-op")
   | "range" :: spec :: rest =>
     match parseTriples spec with
     | some ts =>
